@@ -123,6 +123,7 @@ func verifMapOrder(site string)                     {}
 func verifMapOrderArg() string                      { return "" }
 func verifSteps() int                               { return 0 }
 func verifSymbolic() bool                           { return false }
+func verifRaceTrack(on bool) {}
 
 // verifDeepDigest: structural digest of everything reachable from the roots (slices up to their
 // capacity, unexported fields included). The engine replaces it by a constant: there the frozen-
